@@ -4,7 +4,7 @@
     There is no [Extract Constant] and no [Extract Inductive] of our own. *)
 Require Extraction.
 Require ExtrOcamlBasic.
-From Sameold Require Import Base.Bytes Model.Header Model.Combiner.
+From Sameold Require Import Base.Bytes Model.Header Model.Combiner Model.IssueTime.
 Extraction Language OCaml.
 Set Extraction KeepSingleton.
 Extraction "Extract/model.ml"
@@ -16,4 +16,5 @@ Extraction "Extract/model.ml"
   Header.originator_str Header.event_str Header.locations Header.location_str
   Header.valid_duration_fields Header.issue_daytime_fields Header.callsign
   Combiner.is_allowed_byte Combiner.bit_vote_detect Combiner.bit_vote_correct
-  Combiner.estimate_message Combiner.combine.
+  Combiner.estimate_message Combiner.combine
+  IssueTime.calculate_issue_time IssueTime.is_expired_at IssueTime.day_number.
